@@ -1626,8 +1626,17 @@ func (e *extraIndenter) WriteByte(b byte) error {
 	for range lineIndent {
 		e.bufWriter.WriteByte('\t')
 	}
-	e.bufWriter.WriteByte(tabwriter.Escape)
-	e.bufWriter.Write(trimmed)
+	// Any other tabs in the line are part of the heredoc body;
+	// keep them escaped so that the tabwriter does not turn them into padding.
+	text := trimmed[:len(trimmed)-1]
+	if bytes.IndexByte(text, '\t') < 0 {
+		e.bufWriter.WriteByte(tabwriter.Escape)
+		e.bufWriter.Write(trimmed)
+	} else {
+		e.bufWriter.Write(text)
+		e.bufWriter.WriteByte(tabwriter.Escape)
+		e.bufWriter.WriteByte('\n')
+	}
 	e.curLine = e.curLine[:0]
 	return nil
 }
